@@ -72,6 +72,22 @@ def run():
     from contracts.fftkernels import modadd
     prove('MODADD', modadd(a, k, n))
 
+    # (k*q) div q == k: with T = D(k*q, q), q*(k - T) lies in [0, q), so k == T (product facts proved first)
+    from contracts.resample import divmul
+    q_ = z3.Int('q_')
+    aux2 = [z3.Implies(z3.And(q_ >= 1, e >= 1), q_ * e >= q_), z3.Implies(z3.And(q_ >= 1, e <= -1), q_ * e <= -q_),
+            q_ * (k - D(k * q_, q_)) == q_ * k - q_ * D(k * q_, q_)]
+    for i_, x in enumerate(aux2):
+        prove('DIVMUL aux %d' % (i_ + 1), x)
+    e2 = k - D(k * q_, q_)
+    prove('DIVMUL', divmul(k, q_), *(defs((k * q_, q_)) + [z3.substitute(aux2[0], (e, e2)), z3.substitute(aux2[1], (e, e2)), aux2[2]]))
+
+    from contracts.resample import mulmono, mulcancel
+    x_, y_, u_, v_ = z3.Ints('x_ y_ u_ v_')
+    prove('MULMONO', mulmono(x_, y_, p), z3.Implies(z3.And(x_ - y_ >= 0, p >= 0), (x_ - y_) * p >= 0), (x_ - y_) * p == x_ * p - y_ * p)
+    prove('MULMONO aux', z3.Implies(z3.And(e >= 0, p >= 0), e * p >= 0))
+    prove('MULCANCEL', mulcancel(q_, u_, v_), z3.Implies(z3.And(q_ >= 1, u_ - v_ <= -1), q_ * (u_ - v_) <= -q_), q_ * (u_ - v_) == q_ * u_ - q_ * v_)
+
     # ---- powers of two: finite domain, exhaustive
     from contracts.fftplans import pow2_facts
     ok = True
